@@ -45,11 +45,21 @@ type CheckpointHandle struct {
 func (cl *CheckpointList) Add(ckptID uint64, ll *sst.LevelList, w *wal.Writer, lastSeqNum uint64) {
 	cl.mu.Lock()
 	defer cl.mu.Unlock()
+	// Index the table files so that IncludesTable (asked by neighboring operators
+	// before they delete a shared table) also works for checkpoints taken at run
+	// time, not only for those loaded from a document.
+	tableURISet := make(map[string]struct{})
+	for level := range ll.DescendLevels() {
+		for t := range level.AllTables() {
+			tableURISet[t.URI()] = struct{}{}
+		}
+	}
 	cp := &Checkpoint{
-		ID:         ckptID,
-		Levels:     ll,
-		WALs:       []wal.Handle{w.Handle(ll.LatestSeqNum)},
-		LastSeqNum: lastSeqNum,
+		ID:          ckptID,
+		Levels:      ll,
+		WALs:        []wal.Handle{w.Handle(ll.LatestSeqNum)},
+		tableURIset: tableURISet,
+		LastSeqNum:  lastSeqNum,
 	}
 	cl.checkpoints = append(cl.checkpoints, cp)
 }
